@@ -2001,7 +2001,9 @@ class Cluster(object):
                     return
 
             host.set_down()
-            if (not was_up and not expect_host_to_be_down) or host.is_currently_reconnecting():
+            # only a host already known to be down is skipped: a host whose state is still unknown (is_up None)
+            # may have pools, and has to be announced down and given a reconnector like an up one
+            if (was_up is False and not expect_host_to_be_down) or host.is_currently_reconnecting():
                 return
 
         log.warning("Host %s has been marked down", host)
